@@ -316,13 +316,16 @@ def run_project(job: T.Tuple[int, str, str, T.List[int], int]) -> dict:
         ('configure-there-and-back', [['setup', b, src] + OPTS, ['configure', b, '-Dlvl=z', '-Dname=w'],
                                       ['configure', b, '-Dlvl=y', '-Dname=v'], ['setup', '--reconfigure', b, src]]),
         ('wipe', [['setup', b, src] + OPTS, ['setup', '--wipe', b, src]]),
+        # a subproject is configured for the first time by a reconfigure
+        ('subproject-first-reached-by-reconfigure', [['setup', b, src] + OPTS + ['-Dwith_spy=false'],
+                                                     ['setup', '--reconfigure', b, src, '-Dwith_spy=true']]),
         # the option file grows between two configurations: an option is inserted BEFORE existing ones
         ('option-inserted-then-reconfigure', [['@old-options'], ['setup', b, src, '-Dlvl=y', '-Dspx:sval=cmd'], ['@new-options'],
                                               ['setup', '--reconfigure', b, src], ['configure', b, '-Dname=v'],
                                               ['setup', '--reconfigure', b, src]]),
     ]
     if tier == 'quick':
-        hists = [hists[rng.randrange(3)], hists[3]]
+        hists = [hists[rng.randrange(3)], hists[3], hists[4]]
     for name, cmds in hists:
         fresh()
         ok = True
